@@ -25,7 +25,7 @@ EXPLANATION = (
     "R02.8 sibling agreement among the five rewrites that rebuild an Elemwise around transformed inputs: the optional array operands where/out "
     "are transformed with the inputs; R02.9 every operand loop of a Blockwise-family slice pushdown consults the operand's own extent (broadcast "
     "axes); R02.10 a pushdown that converts output block indices into offsets on an operand's own chunks declines on the operands' grids "
-    "(position pairing needs aligned operands); R02.11 a hook that rebuilds its own class recomputes layout-literal operands or is conditioned on the pushed operation. "
+    "(position pairing needs aligned operands); R02.11 a hook that rebuilds its own class recomputes layout-literal operands or is conditioned on the pushed operation; R02.12 index-space typing (sa/indexspace.py): output-laid sequences are subscripted by output positions, operand-laid ones by that operand's positions. "
     "Sentences 1-2 (every phase and every fired rewrite preserves values) quantify over array contents and are not decided; "
     "the REF inventory only detects that a condition under which a rewrite used to decline was weakened."
 )
@@ -696,7 +696,82 @@ def r02_11(ctx):
     return rr
 
 
-RULES = [r02_1, r02_2, r02_3, r02_4, r02_5, r02_6, r02_7, r02_8, r02_9, r02_10, r02_11]
+_INDEX_SPACE_EXAMPLE = """
+def hook(self, slice_expr):
+    out_ind = self.out_ind
+    full_index = slice_expr.index
+    args = self.args
+    for i in range(0, len(args), 2):
+        arg, arg_ind = args[i], args[i + 1]
+        offsets = [list(c) for c in arg.chunks]
+        for dim_idx, label in enumerate(arg_ind):
+            out_pos = out_ind.index(label)
+            good = offsets[dim_idx], full_index[out_pos]
+            bad = offsets[out_pos]
+"""
+
+
+def r02_12(ctx):
+    rr = RuleResult(
+        "R02.12", "COVER",
+        "index-space typing of the functions that relate output axes to operand axes through index labels (every unit function that mentions out_ind): a sequence laid out "
+        "over the OUTPUT's axes (self.shape/chunks, out_ind, the pushed slice's index, lists built over them) is subscripted only by output positions "
+        "(enumerate/range over such a sequence, out_ind.index(label)), a sequence laid out over one OPERAND's axes (arg.shape/chunks, its index tuple, lists "
+        "built over them) only by that operand's positions",
+        min_instances=6,
+    )
+    from ..indexspace import IndexSpaces
+
+    probe = ast.parse(_INDEX_SPACE_EXAMPLE).body[0]
+    mm, typed = IndexSpaces(probe).mismatches()
+    rr.inst("positive-example", typed=typed, mismatches=[unparse(n) for n, _d, _k in mm])
+    if [unparse(n) for n, _d, _k in mm] != ["offsets[out_pos]"] or typed < 3:
+        from ..model import AnalysisError
+
+        raise AnalysisError("R02.12 index-space analysis no longer types its own positive example (expected exactly offsets[out_pos])")
+    total = 0
+    scope = []
+    for f in ctx.repo.all_functions():
+        if "/tests/" in f.module.relpath or f.parent is not None:
+            continue  # nested functions are analysed as part of their parent (they share its names)
+        if not any((isinstance(n, ast.Name) and n.id == "out_ind") or (isinstance(n, ast.Attribute) and n.attr == "out_ind") for n in ast.walk(f.node)):
+            continue
+        scope.append(f)
+    # spaces of parameters, from the call sites self.<method>(...) inside the scope (all sites must agree)
+    param_domains = {}
+    for f in scope:
+        if f.cls is None:
+            continue
+        for call, doms in IndexSpaces(f.node).call_argument_domains():
+            hit = ctx.repo.class_attr(f.cls, call.func.attr)
+            g = hit[1] if hit and isinstance(hit[1], FuncInfo) else None
+            if g is None:
+                continue
+            formals = [p for p in g.params if p != "self"]
+            for p_, d in zip(formals, doms):
+                cur = param_domains.setdefault(g.fq, {})
+                cur[p_] = d if cur.get(p_, d) == d else None
+    for f in scope:
+        pd = {k: v for k, v in param_domains.get(f.fq, {}).items() if v}
+        mm, typed = IndexSpaces(f.node, pd).mismatches()
+        if not typed:
+            continue
+        total += typed
+        rr.inst(site(f), typed_subscripts=typed)
+        for n, d, k in mm:
+            ctx.finding(
+                rr, f"{f.construct}::{unparse(n)}",
+                f"{unparse(n)}: the sequence is laid out over {d.replace('ARG:', 'the axes of operand ')} but the subscript is a position in {k.replace('ARG:', 'the axes of operand ')} "
+                f"(OUT = this node's output axes). The two orders coincide for elementwise patterns, so the result is only wrong when an operand's index order differs from the output's "
+                f"(blockwise(f, 'ji', x, 'ij', ...)) - the rewritten node then reads another region of the operand",
+                func=f, node=n,
+            )
+    rr.notes.append(f"{total} subscripts with both sides typed")
+    need(total >= 15, "typed subscripts in the out_ind functions")
+    return rr
+
+
+RULES = [r02_1, r02_2, r02_3, r02_4, r02_5, r02_6, r02_7, r02_8, r02_9, r02_10, r02_11, r02_12]
 
 LEVEL_TEXT = (
     "Static decision of sentence 3 of C02 (fusion preserves the output-block -> input-block mapping) as sibling agreement "
